@@ -345,7 +345,8 @@ def evaluate(ctx, cases, asan=None):
         inter = []
         for o in ops:
             inter += [op_literal(o), "OCollectAuto"]
-        coqcases.append((clist(inter), trace_literal(r["trace"])))
+        coqcases.append(("(%s : list op)" % clist(inter),
+                         "(%s : list (list (bool * nat * bool)))" % trace_literal(r["trace"])))
         owner.append(c)
     eqb = "list_eqb (list_eqb (pair_eqb (pair_eqb Bool.eqb Nat.eqb) Bool.eqb))"
     fexpr = ("fun ops => (fix odd (l : list (list (bool * nat * bool))) := match l with "
